@@ -179,7 +179,7 @@ template <class T> static int run() {
         // rank of the target / argument
         int r = 0;
         if (w.size() >= 2) {
-          if ((op == "asg" || op == "cadd" || op == "csub" || op == "cmul" || op == "cdiv" || op == "sca" || op == "whr" || op == "weo") && W.views.count(idof(w[1]))) r = W.views[idof(w[1])].rank;
+          if ((op == "asg" || op == "asge" || op == "cadd" || op == "csub" || op == "cmul" || op == "cdiv" || op == "sca" || op == "whr" || op == "weo") && W.views.count(idof(w[1]))) r = W.views[idof(w[1])].rank;
           else if ((op == "iasg" || op == "icadd" || op == "icsub" || op == "icmul" || op == "isca") && W.iviews.count(idof(w[1]))) r = W.iviews[idof(w[1])].krank;
           else if ((op == "fasg" || op == "fcadd" || op == "fcmul") && W.allocs.count(idof(w[1]))) r = W.allocs[idof(w[1])].fkind == 4 ? 1 : 2;
           else if (op == "red" || op == "redd" || op == "redb" || op == "reddb" || op == "find" || op == "minloc" || op == "maxloc" || op == "dot") {
